@@ -1086,8 +1086,9 @@ class Application():
         # try file or index
         if req.document_root and \
                 req.method_number & (METHOD_HEAD | METHOD_GET):
+            # path is always absolute, so it can't leave the document root
             rfile = "%s%s" % (req.document_root,
-                              path.normpath("%s" % req.path))
+                              path.normpath("/%s" % req.path.lstrip('/')))
 
             if not path.exists(rfile):
                 if req.debug and req.path == '/debug-info':  # work if debug
